@@ -22,6 +22,58 @@ Proof.
   now rewrite format_service_errors, IH.
 Qed.
 
+(* ---- any nesting depth, any mixture of service errors and other Go errors ---- *)
+Lemma goerr_ind' (P : goerr -> Prop) :
+  (forall x, P (EOne x)) -> (forall m, P (EOther m)) ->
+  (forall l, Forall P l -> P (EList l)) -> forall e, P e.
+Proof.
+  intros H1 H2 H3. fix IH 1. intros [x|l|m]; [apply H1| |apply H2].
+  apply H3. induction l as [|a t IHl]; constructor; [apply IH|exact IHl].
+Qed.
+
+Theorem format_any_nesting e : all_service e = true -> format_error e = service_leaves e.
+Proof.
+  induction e as [x|m|l IH] using goerr_ind'; intros H; [reflexivity|discriminate|].
+  cbn in *. induction IH as [|a t Ha _ IHt]; [reflexivity|].
+  apply andb_true_iff in H as [Hh Ht]. rewrite (Ha Hh), (IHt Ht). reflexivity.
+Qed.
+
+Theorem format_counts_every_leaf e : List.length (format_error e) = leaf_count e.
+Proof.
+  induction e as [x|m|l IH] using goerr_ind'; [reflexivity|reflexivity|].
+  cbn. induction IH as [|a t Ha _ IHt]; [reflexivity|].
+  rewrite app_length, Ha, IHt. reflexivity.
+Qed.
+
+Theorem service_error_never_lost e x : In x (service_leaves e) -> In x (format_error e).
+Proof.
+  induction e as [y|m|l IH] using goerr_ind'; intros H; [exact H|destruct H|].
+  cbn in *. induction IH as [|a t Ha _ IHt]; [exact H|].
+  apply in_app_or in H as [H|H]; apply in_or_app; [left; apply Ha, H|right; apply IHt, H].
+Qed.
+
+(* the round trip is a projection: an error that went through one hop is unchanged by a second *)
+Lemma reencode_canonical ext msg locs path :
+  (ext = JNull \/ exists x, ext = JObj x) ->
+  (locs = [] \/ exists a t, locs = [("locations", JArr (a :: t))]) ->
+  (path = [] \/ exists a t, path = [("path", JArr (a :: t))]) ->
+  reencode_error (JObj ([("extensions", ext); ("message", JStr msg)] ++ locs ++ path))
+  = JObj ([("extensions", ext); ("message", JStr msg)] ++ locs ++ path).
+Proof. intros [->|[x ->]] [->|[a [t ->]]] [->|[b [u ->]]]; reflexivity. Qed.
+
+Theorem reencode_idempotent e : reencode_error (reencode_error e) = reencode_error e.
+Proof.
+  destruct e as [| | | | |ms|]; try reflexivity.
+  unfold reencode_error at 2 3.
+  assert (Hm : exists m, match member_ci "message" ms with Some (JStr s) => JStr s | _ => JStr "" end = JStr m).
+  { destruct (member_ci "message" ms) as [[| | |m| | |]|]; eauto. }
+  destruct Hm as [m ->].
+  apply reencode_canonical.
+  - destruct (member_ci "extensions" ms) as [[| | | | |x|]|]; eauto.
+  - destruct (member_ci "locations" ms) as [[| | | |[|a t]| |]|]; eauto.
+  - destruct (member_ci "path" ms) as [[| | | |[|a t]| |]|]; eauto.
+Qed.
+
 (* whatever the completion order of the concurrently failing groups, the client gets every error of every group
    exactly once (only the relative order of groups varies) *)
 Lemma client_errors_perm_aux (groups : list (list json)) : forall pi pi', Permutation pi pi' -> Permutation (client_errors groups pi) (client_errors groups pi').
